@@ -182,6 +182,10 @@ class Interp:
             return True
         if isinstance(v, (Closure, BoundMethod, Uninterp, SymMethod)):
             return True
+        if isinstance(v, self.models.ADict):
+            return bool(v.entries)
+        if isinstance(v, self.models.SymSet):
+            return bool(v.items)
         return bool(v)
 
     def decide(self, v):
@@ -264,7 +268,7 @@ class Interp:
             if ga is not None:
                 return self.call(ga, [obj, name], {})
             raise Raised(AttributeError(f"{obj.cls.__name__!r} object has no attribute {name!r}"))
-        if isinstance(obj, self.models.GhostList):
+        if isinstance(obj, (self.models.GhostList, self.models.ADict, self.models.SymSet)):
             return SymMethod(obj, name)
         from .rx import SymMatch
         if isinstance(obj, SymMatch):
@@ -424,7 +428,13 @@ class Interp:
         if mod.startswith('pytrs') and not issubclass(cls, BaseException):
             if con is not None and (cls.__qualname__ + '.__init__') != self.verify_target and not self.spec_depth:
                 obj = Obj(cls)
-                con.apply(self, cls.__init__, [obj] + list(args), kwargs)
+                if getattr(con, 'init_fields', None) is not None:
+                    clo = self.to_closure(cls.__init__)
+                    bound = self.bind_args(clo, [obj] + list(args), kwargs)
+                    con.init_fields(self, obj, bound)
+                    self.ctx.assumed.append('callee-contract:' + con.name)
+                else:
+                    con.apply(self, cls.__init__, [obj] + list(args), kwargs)
                 return obj
             new = self.class_lookup(cls, '__new__')
             obj = Obj(cls)
@@ -732,6 +742,10 @@ class Interp:
         return self.loop_contracts.get((q, ordn))
 
     def iterate(self, it, node=None):
+        if isinstance(it, self.models.ADict):
+            return iter([k for k, _ in it.entries])
+        if isinstance(it, self.models.SymSet):
+            return iter(list(it.items))
         if isinstance(it, (list, tuple, range, dict, set, frozenset, str)):
             return iter(list(it)) if not isinstance(it, dict) else iter(list(it.keys()))
         if isinstance(it, (types.GeneratorType, enumerate, zip, map, filter, reversed)) or hasattr(it, '__next__'):
@@ -741,7 +755,13 @@ class Interp:
             if m is not None:
                 return self.iterate(self.call(m, [it], {}), node)
             gi = self.class_lookup(it.cls, '__getitem__')
+            if gi is None:
+                raise Raised(TypeError(f"{it.cls.__name__!r} object is not iterable"))
             raise Unsupported(f"iteration over Obj {it.cls.__name__}")
+        if isinstance(it, SV) and not (it.is_str() or it.is_seq()):
+            raise Raised(TypeError("'int' object is not iterable"))
+        if isinstance(it, SOpt):
+            raise Unsupported("iteration over optional value")
         if isinstance(it, (SymList, SV)):
             raise Unsupported("iteration over symbolic sequence needs a loop contract")
         if isinstance(it, (self.models.GhostList, self.models.ObjSeq)):
@@ -867,15 +887,16 @@ class Interp:
         return out
 
     def e_Dict(self, node, frame):
-        d = {}
+        d = self.models.ADict()
         for k, v in zip(node.keys, node.values):
             if k is None:
-                d.update(self.eval(v, frame))
+                src = self.eval(v, frame)
+                items = src.entries if isinstance(src, self.models.ADict) else list(src.items())
+                for kk, vv in items:
+                    self.models.adict_set(self, d, kk, vv)
             else:
                 kk = self.eval(k, frame)
-                if has_sym(kk):
-                    self.unsupported(node, "dict literal with symbolic key")
-                d[kk] = self.eval(v, frame)
+                self.models.adict_set(self, d, kk, self.eval(v, frame))
         return d
 
     def e_Lambda(self, node, frame):
@@ -923,8 +944,46 @@ class Interp:
             return self.eval(node.body, frame)
         return self.eval(node.orelse, frame)
 
+    def pure_expr(self, node):
+        """syntactically side-effect free: names, attributes (incl. properties), constants, comparisons, boolean ops"""
+        if isinstance(node, (ast.Name, ast.Constant)):
+            return True
+        if isinstance(node, ast.Attribute):
+            return self.pure_expr(node.value)
+        if isinstance(node, ast.BoolOp):
+            return all(self.pure_expr(v) for v in node.values)
+        if isinstance(node, ast.UnaryOp) and isinstance(node.op, ast.Not):
+            return self.pure_expr(node.operand)
+        if isinstance(node, ast.Compare):
+            return self.pure_expr(node.left) and all(self.pure_expr(c) for c in node.comparators) and \
+                all(isinstance(o, (ast.Is, ast.IsNot, ast.Eq, ast.NotEq)) for o in node.ops)
+        return False
+
     def e_BoolOp(self, node, frame):
         is_and = isinstance(node.op, ast.And)
+        if not self.spec_depth and all(self.pure_expr(v) for v in node.values):
+            # pure boolean combination: no short-circuit forks needed when every operand is boolean-valued
+            self.spec_depth += 1
+            try:
+                vals = []
+                ok = True
+                for e in node.values:
+                    try:
+                        v = self.eval(e, frame)
+                    except (Raised, Unsupported):
+                        ok = False
+                        break
+                    if not (isinstance(v, bool) or (isinstance(v, SV) and v.is_bool())):
+                        ok = False
+                        break
+                    vals.append(v)
+            finally:
+                self.spec_depth -= 1
+            if ok:
+                if all(isinstance(v, bool) for v in vals):
+                    return all(vals) if is_and else any(vals)
+                ts = [z3.BoolVal(v) if isinstance(v, bool) else v.t for v in vals]
+                return wrap(z3.And(*ts) if is_and else z3.Or(*ts))
         if self.spec_depth:
             # pure spec expression: no forks; later operands are evaluated under the guard of the earlier ones
             terms = []
@@ -1142,19 +1201,15 @@ class Interp:
         out = []
         f = self.comp_frame(frame)
         self.comp_generators(node.generators, f, lambda fr: out.append(self.eval(node.elt, fr)))
-        if has_sym(out):
-            self.unsupported(node, "set comprehension with symbolic elements")
-        return set(out)
+        return self.models.lookup_model(set)(self, [out], {}, node)
 
     def e_DictComp(self, node, frame):
-        out = {}
+        out = self.models.ADict()
         f = self.comp_frame(frame)
 
         def body(fr):
             k = self.eval(node.key, fr)
-            if has_sym(k):
-                self.unsupported(node, "dict comprehension with symbolic key")
-            out[k] = self.eval(node.value, fr)
+            self.models.adict_set(self, out, k, self.eval(node.value, fr))
         self.comp_generators(node.generators, f, body)
         return out
 
